@@ -15,3 +15,18 @@ void vf_assert(bool c, const char *msg) { if (!c) vf_fail(msg); }
 void vf_witness(const char *) {}
 void vf_observe(uint64_t v) { printf("OBS %llu\n", (unsigned long long)v); fflush(stdout); }
 }
+
+// ---- native backing of the in-memory stdio file used by w_gz.cc (under CBMC these are models in stubs/vf_stubs.c)
+#include <string.h>
+static unsigned char vfz_data[48]; static unsigned long vfz_size;
+extern "C" {
+void vfz_setup(unsigned long size) { vfz_size = size; }
+void vfz_poke(unsigned long i, unsigned char v) { if (i < 48) vfz_data[i] = v; }
+unsigned char vfz_peek(unsigned long i) { return i < 48 ? vfz_data[i] : 0; }
+void *vfz_file(void)
+{
+  FILE *f = tmpfile();
+  if (f && vfz_size) { fwrite(vfz_data, 1, vfz_size, f); fflush(f); }
+  return f;
+}
+}
